@@ -344,7 +344,7 @@ func TestVerifC06V2(t *testing.T) {
 			settle(items)
 			// late payloads for private transactions that came without: wrong bytes first, then the right ones, then again
 			for _, it := range dagTxs {
-				if it.priv && it.call.Pid == nil && rnd.Intn(2) == 0 {
+				if it.priv && it.call.Pid == nil && rnd.Intn(6) == 0 {
 					l.payload(it.ref, l.b.NewPid(), "late-payload:wrong-bytes")
 					if rnd.Intn(3) > 0 {
 						l.payload(it.ref, it.pid, "late-payload:right-bytes")
